@@ -523,3 +523,89 @@ def style_builder(repo, rep, modifiers, real, palette, _style_ok):
                   'attributes of the enclosing style stay on - a token style must start from reset'
                   % (label, _fmt(got.get('y', DEFAULT_STATE)), _fmt(expected_state(prof)), _fmt(got.get('p', DEFAULT_STATE))), nontrivial=True)
     return n
+
+
+# ---------------------------------------------------------------------------------------------------- the plain renderer (C04.i)
+def plain_spec(tree):
+    """the text the property calls for: text fragments and line breaks in order, annotations invisible, every line break followed by
+    its indentation, and on every line the last text fragment without its trailing blanks"""
+    flat = []
+
+    def rec(items):
+        for item in items:
+            if item[0] == 't':
+                flat.append(('t', item[1]))
+            elif item[0] == 'l':
+                flat.append(('l', item[1]))
+            else:
+                rec(item[2])
+    rec(tree)
+    lines = [[]]
+    for it in flat:
+        if it[0] == 'l':
+            lines.append([it])
+        else:
+            lines[-1].append(it)
+    out = []
+    for ln in lines:
+        idx = max([i for i, it in enumerate(ln) if it[0] == 't'], default=None)
+        for i, it in enumerate(ln):
+            if it[0] == 'l':
+                out.append('\n' + ' ' * it[1])
+            else:
+                out.append(it[1].rstrip() if i == idx else it[1])
+    return ''.join(out)
+
+
+def plain_renderer(repo, rep, rule):
+    """interprets default_render_to_stream (with as_lines, rfind_idx and whatever helpers it uses) on the scenario trees and compares
+    what is written with the specification; returns the instance count"""
+    from .c16 import _colorful_grammar
+    grammar = _colorful_grammar()
+    plain = repo.module('render').funcs.get('default_render_to_stream')
+    if plain is None:
+        raise AnalysisError('default_render_to_stream vanished')
+    ok = 0
+    bad = []
+    und = []
+    scs = scenarios(rep.tier, rep.seed)
+    scs += [[('t', 'a '), ('t', 'b'), ('t', ' '), ('a', 'N', [('t', ' ')]), ('l', 2), ('t', ' c ')], [('t', '  ')], [('l', 0), ('l', 3), ('l', 0)],
+            [('t', 'x'), ('a', 'T1', [('l', 4), ('t', 'y  '), ('a', 'N', [])]), ('l', 1), ('t', ' ')]]
+    for tree in scs:
+        w = World(repo, grammar)
+        values = {k: (lambda it, k=k: Const('<token %s>' % k)) for k in ('T1', 'T2', 'T3')}
+        values['N'] = lambda it: Const('<note>')
+        values['S'] = lambda it: Const('user-annotation')
+        try:
+            prs = w.it.explore(plain, [Const('<STREAM>'), _build(w.it, tree, values)], {})
+        except (Undecided, PathLimit) as e:
+            und.append('%s on %s' % (e, _show(tree)))
+            continue
+        if len(prs) != 1:
+            und.append('%d abstract paths on %s' % (len(prs), _show(tree)))
+            continue
+        if prs[0].raised is not None:
+            bad.append('rendering %s raises %s' % (_show(tree), prs[0].raised.what))
+            continue
+        if not all(isinstance(x, Const) and isinstance(x.v, str) for x in w.writes):
+            und.append('non-text write on %s: %s' % (_show(tree), [prov(x) for x in w.writes if not isinstance(x, Const)][:2]))
+            continue
+        got = ''.join(x.v for x in w.writes)
+        want = plain_spec(tree)
+        if got == want:
+            ok += 1
+        else:
+            bad.append('rendering %s writes %r, expected %r' % (_show(tree), got, want))
+    n = 1
+    where = plain.where
+    if bad:
+        for i, d in enumerate(bad[:4]):
+            rep.fail(rule, 'plain-renderer-writes-the-text' if i == 0 else 'plain-renderer-writes-the-text#%d' % (i + 1), where, d)
+    else:
+        rep.check(ok >= 150, rule, 'plain-renderer-writes-the-text', where, 'held on %d interpreted sdoc sequences' % ok,
+                  'only %d sequences could be compared' % ok, nontrivial=True)
+    for u in und[:4]:
+        n += 1
+        rep.undecided(rule, 'plain-renderer-interpretable', where, u)
+    rep.count(len(scs))
+    return n
